@@ -146,8 +146,9 @@ pub fn reference_positions<B: Fld, H: ElementHasher<BaseField = B> + Send + Sync
                 let d = H::Digest::read_from(&mut SliceReader::new(bytes)).ok()?;
                 seed = Some(H::merge(&[seed?, d]));
             },
-            Ev::Ints { k, domain, nonce, .. } => {
-                let s = H::merge_with_int(seed?, *nonce);
+            Ev::Ints { k, domain, .. } => {
+                // the nonce is the one carried in the proof, not the one the verifier handed to its coin
+                let s = H::merge_with_int(seed?, proof.pow_nonce);
                 let mut v: Vec<usize> = (1..=*k as u64)
                     .map(|i| {
                         let d = H::merge_with_int(s, i);
@@ -234,7 +235,20 @@ impl<'a> PairFn for Integrity<'a> {
                         if let Some((FKind::Digest, foff, flen)) = space.field_kind_at(off) {
                             let a = H::Digest::read_from(&mut SliceReader::new(&seed.bytes[foff..foff + flen]));
                             let b = H::Digest::read_from(&mut SliceReader::new(&bytes[foff..foff + flen]));
-                            if let (Ok(a), Ok(b)) = (a, b) {
+                            // only digests made of field elements have more than one encoding (a limb and the limb plus the
+                            // modulus); for the 64-bit Rescue digests this is decided on the bytes (four little-endian words
+                            // equal modulo p), for byte digests (Blake3, SHA3) the exemption never applies
+                            let same_by_reference = match pname {
+                                "f64/rp64_256" | "f64/rpjive64_256" => {
+                                    flen == 32 && (0..4).all(|i| {
+                                        let w = |x: &[u8]| u64::from_le_bytes(x[foff + 8 * i..foff + 8 * i + 8].try_into().unwrap()) as u128 % B::P;
+                                        w(&seed.bytes) == w(&bytes)
+                                    })
+                                },
+                                "f62/rp62_248" => true, // packed 62-bit limbs: the library's decoding is relied on (documented limit)
+                                _ => false,
+                            };
+                            if let (Ok(a), Ok(b), true) = (a, b, same_by_reference) {
                                 if a == b {
                                     out.class("alternative byte encoding of the same digest (outside the claim)");
                                     continue;
